@@ -108,5 +108,79 @@ def monoCanon : Mono → Bool
 def isCanonical (K : Ring) (p : MPoly) : Bool :=
   sortedLt p && p.all (fun t => t.2 ≠ 0 && inRing K t.2 && monoCanon t.1)
 
+/-! ### division support (validators of C02/C03) -/
+
+end MPoly
+
+namespace Mono
+/-- lexicographic monomial order with higher variable ids more significant (a genuine monomial order) -/
+def lexLtRev : List (Nat × Nat) → List (Nat × Nat) → Bool
+  | [], [] => false
+  | [], _ :: _ => true
+  | _ :: _, [] => false
+  | (x, e) :: r, (y, f) :: s =>
+    if x > y then false          -- a has a higher variable: a is bigger
+    else if y > x then true
+    else if e < f then true else if f < e then false
+    else lexLtRev r s
+def lexLt (a b : Mono) : Bool := lexLtRev a.reverse b.reverse
+
+/-- exponent-wise quotient a / b when b divides a (canonical inputs) -/
+def div? (a b : Mono) : Option Mono :=
+  let q := b.foldl (fun (acc : Option Mono) p =>
+    match acc with
+    | none => none
+    | some m =>
+      let d := degreeIn p.1 m
+      if d < p.2 then none
+      else some (norm ((without p.1 m) ++ (if d = p.2 then [] else [(p.1, d - p.2)])))) (some a)
+  q
+end Mono
+
+namespace MPoly
+
+/-- leading term with respect to `Mono.lexLt` -/
+def leadTerm (p : MPoly) : Option Term :=
+  p.foldl (fun acc t => match acc with
+    | none => some t
+    | some u => if Mono.lexLt u.1 t.1 then some t else some u) none
+
+/-- coefficient quotient in the ring: exact in Z, by inverse in a prime field; `none` if impossible -/
+def coeffDiv? (K : Ring) (isPrime : Bool) (a b : Int) : Option Int :=
+  match K with
+  | none => if b ≠ 0 ∧ a % b = 0 then some (a / b) else none
+  | some M => if isPrime then (iInv M b).map (fun i => normalizeM M (a * i)) else none
+
+/-- multivariate division by a single divisor with multiply-back: `some Q` implies `A = Q * B` -/
+def divLoop (K : Ring) (isPrime : Bool) (B : MPoly) (ltB : Term) : Nat → MPoly → MPoly → Option MPoly
+  | 0, _, _ => none
+  | fuel+1, R, Q =>
+    match leadTerm R with
+    | none => some Q
+    | some t =>
+      match Mono.div? t.1 ltB.1, coeffDiv? K isPrime t.2 ltB.2 with
+      | some m, some c =>
+        let R' := sub K R (normalize K (mulTerm m c B))
+        divLoop K isPrime B ltB fuel R' (add K Q [(m, c)])
+      | _, _ => none
+
+def divExact? (K : Ring) (isPrime : Bool) (A B : MPoly) : Option MPoly :=
+  match leadTerm B with
+  | none => none
+  | some ltB =>
+    match divLoop K isPrime B ltB (A.length * (B.length + 1) * 64 + 64) A [] with
+    | some Q => if mul K Q B = A then some Q else none
+    | none => none
+
+/-- leading coefficient in x (a polynomial in the other variables) -/
+def lcIn (K : Ring) (x : Nat) (p : MPoly) : MPoly := coeffIn K x (degreeIn x p) p
+
+/-- the identity `P * A = Q * B + R` on canonical forms -/
+def checkReduceIdentity (K : Ring) (P A Q B R : MPoly) : Bool :=
+  mul K P A = add K (mul K Q B) R
+
+/-- `P = lc_x(B)^k` -/
+def isLcPower (K : Ring) (x : Nat) (B P : MPoly) (k : Nat) : Bool := pow K (lcIn K x B) k = P
+
 end MPoly
 end LP
